@@ -92,7 +92,7 @@ PROPS = {
                 "generate_applied_gates per outcome string. Distinct = (mode, width, CMEASURE?, control kind, tree size, initial state?) "
                 "tuples; non-trivial = run with >=3 programs or >=1 scripted draw.",
         "probes": ["C10.nested_cmeasure_depth>=2", "C10.outcome_tree_fully_simulated", "C10.outcome_tree_fully_observed", "C10.leaf_forced_by_script",
-                   "C10.retry_exhausted", "C10.retry_attempts>1_likely", "C10.circuit_object_simulated_again", "C10.circuit_object_relabelled_between_simulations"],
+                   "C10.retry_exhausted", "C10.retry_attempts>1_likely", "C10.negligible_branch_sampled", "C10.circuit_object_simulated_again", "C10.circuit_object_relabelled_between_simulations"],
         "components_real": ["Backend.simulate, CirqSimulator.simulate_circuit (conditioned route, CMEASURE shot loop, cirq.run route, "
                             "density route, retry loop), perform_measurement, get_unitary_circuit_pieces, generate_applied_gates, "
                             "split_frequency_dict*, cirq Simulator / DensityMatrixSimulator"],
